@@ -10,7 +10,7 @@ Here we define extend the pairing functions to Z
 from collections import deque
 from functools import cache, lru_cache
 from itertools import combinations
-from math import floor, sqrt
+from math import floor, isqrt
 
 import numpy as np
 from sympy import factorint, multiplicity
@@ -62,8 +62,8 @@ class Cantor(Pairing):
 
     @staticmethod
     def projection2d(z: int) -> tuple[int, int]:
-        omega = floor((-1 + sqrt(1 + 8 * z)) / 2)
-        return int(z - omega * (omega + 1) / 2), int(omega * (omega + 3) / 2 - z)
+        omega = (isqrt(1 + 8 * z) - 1) // 2
+        return z - omega * (omega + 1) // 2, omega * (omega + 3) // 2 - z
 
 
 class RosenbergStrong(Pairing):
@@ -100,7 +100,7 @@ class RosenbergStrong(Pairing):
 
     @staticmethod
     def projection2d(z: int) -> tuple[int, int]:
-        m = floor(sqrt(z))
+        m = isqrt(z)
         z1 = z - m**2
         if z1 < m:
             return z1, m
@@ -118,7 +118,7 @@ class Szudzik(Pairing):
 
     @staticmethod
     def projection2d(z: int) -> tuple[int, int]:
-        m = floor(sqrt(z))
+        m = isqrt(z)
         z1 = z - m**2
         if z1 < m:
             return z1, m
